@@ -14,7 +14,12 @@
 (*                   pipe), unless the run had finished anyway             *)
 (*   AggStopped      an aggregate prints one table, for exactly the lines  *)
 (*                   consumed before the interrupt: the row count = MAX(line   *)
-(*                   number) = the `processed n lines` statistic           *)
+(*                   number) = the `processed n lines` statistic; over a   *)
+(*                   JOIN in which every line has `fan` partners the row   *)
+(*                   count is fan x that number (the harness divides and   *)
+(*                   reports 0 when it is no whole multiple): an interrupt *)
+(*                   that lands in the middle of a line's fan-out does not *)
+(*                   leave half a line in the table                        *)
 (*                                                                         *)
 (* Anything else (an error line, a non-zero status, a gap or repetition in *)
 (* the rows, a table that does not match the lines consumed, a run that    *)
